@@ -55,9 +55,31 @@ type caseIn struct {
 	Hostile   bool   `json:"hostile,omitempty"`
 	Zero      bool   `json:"zero_value,omitempty"`
 	WithProto bool   `json:"with_proto"`
+	// duration sweep: the message is an UpstreamOpenRequest (0), ConnectRequest (1) or DownstreamOpenRequest (2)
+	// whose millisecond-resolution field is SweepUnits ms + SweepRem ns and whose second-resolution
+	// fields are SweepUnits s + SweepRem*1000 ns
+	Sweep      bool  `json:"duration_sweep,omitempty"`
+	SweepMsg   int   `json:"sweep_message,omitempty"`
+	SweepUnits int64 `json:"sweep_units,omitempty"`
+	SweepRem   int64 `json:"sweep_remainder_ns,omitempty"`
+}
+
+func sweepMessage(ci *caseIn) message.Message {
+	ms := time.Duration(ci.SweepUnits)*time.Millisecond + time.Duration(ci.SweepRem)
+	s := time.Duration(ci.SweepUnits)*time.Second + time.Duration(ci.SweepRem*1000)
+	switch ci.SweepMsg {
+	case 1:
+		return &message.ConnectRequest{RequestID: 1, PingInterval: s, PingTimeout: s + time.Second}
+	case 2:
+		return &message.DownstreamOpenRequest{RequestID: 1, ExpiryInterval: s, QoS: message.QoSReliable}
+	}
+	return &message.UpstreamOpenRequest{RequestID: 1, AckInterval: ms, ExpiryInterval: s, QoS: message.QoSReliable}
 }
 
 func build(ci *caseIn, seen map[string][]string, order *[]string) (message.Message, bool) {
+	if ci.Sweep {
+		return sweepMessage(ci), true
+	}
 	if ci.Zero {
 		return reflect.New(cdump.MessageTypes[ci.Kind]).Interface().(message.Message), true
 	}
@@ -184,6 +206,9 @@ func runCase(m message.Message, withProto bool, sr *rng.R, count func(string)) (
 		}
 		counts = append(counts, zList(int64(n), int64(len(data)), int64(dn), txm, txb, rxm, rxb))
 		// the same encoding through other reader shapes (two sampled per case and encoding) ...
+		if sr == nil { // duration sweep: small terms, the shapes are covered by all other cases
+			continue
+		}
 		plain := cdump.Wire(dm)
 		var shapeObs []string
 		s1 := 1 + sr.Intn(ioshape.NReaderShapes-1)
@@ -287,7 +312,7 @@ func main() {
 	out := flag.String("out", "", "output directory")
 	replay := flag.String("replay", "", "replay file (JSON with an 'input' field)")
 	flag.Parse()
-	w := coqfmt.NewWriter(*out, "C11", "From Iscp Require Import Model.Codec.", "codec_case", "codec_judge", 150)
+	w := coqfmt.NewWriter(*out, "C11", "From Iscp Require Import Model.Codec.", "codec_case", "codec_judge", 220)
 
 	// progress watchdog: the codec never blocks; a stall is a hang inside a parser
 	go func() {
@@ -304,9 +329,16 @@ func main() {
 	}()
 
 	add := func(ci *caseIn, kind string) {
+		if ci.Sweep {
+			ci.Kind = []int{3, 0, 9}[ci.SweepMsg]
+		}
 		ci.Type = cdump.MessageTypes[ci.Kind].Name()
 		m, _ := build(ci, nil, nil)
-		term, obs, direct := runCase(m, ci.WithProto, rng.New(ci.Seed^0x5ade), w.Count)
+		sr := rng.New(ci.Seed ^ 0x5ade)
+		if ci.Sweep {
+			sr = nil
+		}
+		term, obs, direct := runCase(m, ci.WithProto, sr, w.Count)
 		c := coqfmt.Case{Term: term, Input: ci, Observed: obs, Nontrivial: !ci.Zero, Kind: kind, Direct: direct, Seed: ci.Seed}
 		if direct != "" {
 			c.Term = "mkCC VNil None [] Err None [] []"
@@ -402,6 +434,28 @@ func main() {
 			add(&caseIn{Kind: k, Seed: r.U64(), Hostile: true, WithProto: true}, "hostile")
 		}
 	}
+	// 3b. duration sweep: case k puts k ms into the millisecond-resolution field and k s into the
+	//     second-resolution ones, for EVERY k in 0..5000; every 7th k also with a remainder below the unit
+	//     (canonicalised by the model) and in the two other messages with second fields; values around
+	//     2^24 s (where float64 Seconds() stops being exact for sub-second parts), 2^31 and 2^32 units
+	for k := int64(0); k <= 5000; k++ {
+		add(&caseIn{Sweep: true, SweepUnits: k, Seed: uint64(k)}, "sweep")
+		if k%7 == 0 {
+			add(&caseIn{Sweep: true, SweepUnits: k, SweepRem: 1 + int64(r.Intn(999999)), Seed: uint64(k)}, "sweep")
+			add(&caseIn{Sweep: true, SweepMsg: 1 + int(k/7)%2, SweepUnits: k, SweepRem: int64(r.Intn(1000000)), Seed: uint64(k)}, "sweep")
+		}
+	}
+	for _, base := range []int64{1 << 24, 1 << 31, 1 << 32} {
+		for d := int64(-2); d <= 1; d++ {
+			u := base + d
+			if u >= 1<<32 && !thorough {
+				continue // beyond the wire range uint32(float64) is implementation-defined; thorough only, as the hostile generator does
+			}
+			for msg := 0; msg < 3; msg++ {
+				add(&caseIn{Sweep: true, SweepMsg: msg, SweepUnits: u, Seed: uint64(u)}, "sweep-boundary")
+			}
+		}
+	}
 	// 4. large payloads and collections (few: the terms are big)
 	nbig := 3
 	if thorough {
@@ -413,7 +467,7 @@ func main() {
 		}
 	}
 	extra := map[string]interface{}{"choice_points": nPaths, "alternatives_enumerated": nAlts, "probes_outside_domain": probes()}
-	rule := "every message type: zero value; every (field path, alternative) of the grammar forced once with all other content random (result codes 1..36 and out-of-table numbers, QoS, every oneof variant incl. absent, nil/non-nil extension fields and sub-messages, nil/empty/1/few/8 collections, 7 time shapes); random contents (non-ASCII strings, extreme integers, durations at the wire limits, payloads 0..17 bytes, collections 0..8); hostile values outside the domain; large payloads; every encoding that decodes is decoded again behind two sampled io.Reader shapes (last data together with io.EOF, one byte at a time, halves, random chunks with EOF on the last, (0,nil) now and then) and encoded again into a sampled io.Writer shape: reported count = bytes pulled / received = length of the encoding, same message. non-trivial = not the zero message; distinct = distinct Coq case terms"
+	rule := "every message type: zero value; every (field path, alternative) of the grammar forced once with all other content random (result codes 1..36 and out-of-table numbers, QoS, every oneof variant incl. absent, nil/non-nil extension fields and sub-messages, nil/empty/1/few/8 collections, 7 time shapes); random contents (non-ASCII strings, extreme integers, durations at the wire limits, payloads 0..17 bytes, collections 0..8); hostile values outside the domain; large payloads; a duration sweep (every whole millisecond 0..5000 in the millisecond field with as many seconds in the second fields, every 7th also with a sub-unit remainder, values around 2^24 s, 2^31 and 2^32 units); every encoding that decodes is decoded again behind two sampled io.Reader shapes (last data together with io.EOF, one byte at a time, halves, random chunks with EOF on the last, (0,nil) now and then) and encoded again into a sampled io.Writer shape: reported count = bytes pulled / received = length of the encoding, same message. non-trivial = not the zero message; distinct = distinct Coq case terms"
 	if err := w.Flush(*seed, *tier, rule, false, extra); err != nil {
 		fmt.Fprintln(os.Stderr, err)
 		os.Exit(2)
